@@ -22,9 +22,18 @@ func init() { register("C06", checkC06) }
 type layoutAdapter struct {
 	ch     *explore.Chooser
 	points []string
+	// structuralOnly: the decoration points (blank lines, comments, line ends - local to one line) keep their
+	// default; only the points that move tokens between lines and columns are choice points
+	structuralOnly bool
 }
 
+var c06DecorationPoints = map[string]bool{"blank-lines-before": true, "comment-before": true, "line-end": true, "line-end-before-paren": true,
+	"blank-lines-before-def": true, "comment-before-def": true, "end-of-file": true}
+
 func (l *layoutAdapter) Choose(point string, n int) int {
+	if l.structuralOnly && c06DecorationPoints[point] {
+		return 0
+	}
 	v := l.ch.Choose(n)
 	if v != 0 {
 		l.points = append(l.points, fmt.Sprintf("%s=%d", point, v))
@@ -247,7 +256,9 @@ func c06Explore(c *core.Ctx, sc *impl.Scratch, fc, dir string, pr *c06Prog, boun
 	curHeader := 0
 	headerPoint := strings.HasPrefix(pr.name, "corpus:") || strings.HasPrefix(pr.name, "decls:") || strings.HasPrefix(pr.name, "converse:")
 	st := explore.Explore(bound, func(ch *explore.Chooser) {
-		la := &layoutAdapter{ch: ch}
+		// quick tier: the two-construct programs get the structural points only (their lines are of the same kinds
+		// as those of the one-construct programs and the corpus, which get every point)
+		la := &layoutAdapter{ch: ch, structuralOnly: !c.Thorough() && strings.HasPrefix(pr.name, "core2#")}
 		p := fo.NewPrinter(la)
 		s := ""
 		curHeader = 0
